@@ -526,13 +526,17 @@ fn implements_stream(ctx: &mut Ctx) {
 
 // ---------------------------------------------------------------- operations against a parsed schema
 
-const SCHEMAS: [&str; 3] = [
+const SCHEMAS: [&str; 4] = [
     "schema { query: Query } type Query { id: ID! name: String other: Other list: [Other!]! } type Other { a: Int b: Query }",
     "schema { query: Q mutation: M subscription: S } interface Node { id: ID! } type Q implements Node { id: ID! node(id: ID!, first: Int = 3): Node u: U e: E }
      type M { set(input: In!, flag: Boolean): Q } type S { tick: Int q: Q } type A implements Node { id: ID! x: [Int] } union U = A | Q enum E { X Y }
      input In { a: Int! b: [String!] = [\"x\"] c: In2 } input In2 { z: Float } directive @d(n: Int) on FIELD | QUERY | FRAGMENT_SPREAD | INLINE_FRAGMENT",
     "schema { query: Root } interface I { i: Int } interface J implements I { i: Int j(x: Float! = 1.5, y: [ID]): String } type Root implements J & I { i: Int j(x: Float! = 1.5, y: [ID]): String k: J r: Root }
      scalar Date directive @x(a: Date) repeatable on FIELD | QUERY | MUTATION | SUBSCRIPTION",
+    // fields of custom scalar and union type (a union that is extended), a recursive (nullable / list) input object,
+    // an input object with a required field added by an extension
+    "schema { query: Q } scalar Date union U = A extend union U = Q type A { d: Date us: [U!] n: Int } type Q { u: U d(i: In, r: Req!): Date a: A }
+     input In { c: In l: [In!] = [] n: Int m: [[In]!] } input Req { a: Int } extend input Req { b: Date! c: In }",
 ];
 
 fn schema_only(doc: &ast::Document) -> String {
@@ -557,7 +561,13 @@ fn has_input_cycle(schema: &Schema) -> bool {
 
 fn operations_against(ctx: &mut Ctx, schema_text: &str, bytes: &[u8], label: &str) {
     let Ok(schema) = Schema::parse_and_validate(schema_text, "schema.graphql") else { ctx.stat("op_schema_rejected"); return; };
-    if has_input_cycle(&schema) { ctx.stat("op_schema_skipped_recursive_input_object"); return; }
+    // schemas with recursive input objects: `input_value_for_type` used not to return on them (repaired). They are
+    // generated against like any other schema — unless the child-process probe, run first, died: then the defect is
+    // back, it has been reported under its own key, and these schemas are left out so that the run can go on
+    if has_input_cycle(&schema) {
+        if SKIP_RECURSIVE_INPUT.load(std::sync::atomic::Ordering::SeqCst) { ctx.stat("op_schema_skipped_recursive_input_object"); return; }
+        ctx.stat("op_schema_with_recursive_input_object");
+    }
     let facts = ast::Document::parse(schema_text, "schema.graphql").map(|d| doc_facts(&d)).unwrap_or_default();
     let r = catch(|| {
         let cst = apollo_parser::Parser::new(schema_text).parse();
@@ -595,6 +605,9 @@ fn operations_against(ctx: &mut Ctx, schema_text: &str, bytes: &[u8], label: &st
 // ---------------------------------------------------------------- driver
 
 const RECURSIVE_INPUT_SCHEMA: &str = "schema { query: Q } type Q { f(i: In): Int } input In { c: In }";
+/// recursion through a list and through a second input object
+const RECURSIVE_INPUT_SCHEMA_2: &str = "schema { query: Q } type Q { f(i: A): Int } input A { b: B l: [A!] } input B { a: [[A]!] }";
+static SKIP_RECURSIVE_INPUT: std::sync::atomic::AtomicBool = std::sync::atomic::AtomicBool::new(false);
 
 /// a valid schema with a self-referential (nullable) input object: run in a child process, because the
 /// generator recurses without bound and the stack overflow cannot be caught
@@ -608,9 +621,9 @@ fn recursive_input_probe(ctx: &mut Ctx) {
     ctx.stat("child_probes");
     match out {
         Ok(o) if o.status.success() => ctx.stat("recursive_input_probe_ok"),
-        Ok(o) => ctx.fail("smith-op-unbounded-recursion-on-recursive-input-object",
+        Ok(o) => { SKIP_RECURSIVE_INPUT.store(true, std::sync::atomic::Ordering::SeqCst); ctx.fail("smith-op-unbounded-recursion-on-recursive-input-object",
             &format!("operation against `{RECURSIVE_INPUT_SCHEMA}` bytes 1,1,0,0,0,0"),
-            &format!("the child process died ({:?}): input_value_for_type generates every field of an input object, so `input In {{ c: In }}` recurses until the stack overflows", o.status)),
+            &format!("the child process died ({:?}): input_value_for_type generates every field of an input object, so `input In {{ c: In }}` recurses until the stack overflows", o.status)) },
         Err(_) => ctx.stat("child_probe_not_started"),
     }
 }
@@ -662,14 +675,14 @@ pub fn run(ctx: &mut Ctx) {
     }
     if std::env::var("VH_C32_CHILD").as_deref() == Ok("recursive-input") {
         // every small byte string that selects the field `f` with its argument
-        for b0 in 0..4u8 { for b1 in 0..4u8 {
+        for schema in [RECURSIVE_INPUT_SCHEMA, RECURSIVE_INPUT_SCHEMA_2] { for b0 in 0..4u8 { for b1 in 0..4u8 {
             let bytes = [b0, b1, 1, 1, 1, 1, 1, 1];
-            let cst = apollo_parser::Parser::new(RECURSIVE_INPUT_SCHEMA).parse();
+            let cst = apollo_parser::Parser::new(schema).parse();
             let doc = apollo_smith::Document::try_from(cst.document()).unwrap();
             let mut u = Unstructured::new(&bytes);
             let mut b = DocumentBuilder::with_document(&mut u, doc).unwrap();
             let _ = b.operation_definition();
-        } }
+        } } }
         std::process::exit(0);
     }
     // developer tool: VH_C32_SHRINK=<key> prints a minimised byte string for that failure key
@@ -690,6 +703,7 @@ pub fn run(ctx: &mut Ctx) {
 
     let dbg = std::env::var("VH_C32_DEBUG").is_ok();
     let mark = |what: &str, b: &[u8]| { if dbg { std::fs::write("/work/bD/current.txt", format!("{what} {}", bytes_str(b))).unwrap(); } };
+    recursive_input_probe(ctx);
     typename_stream(ctx);
     implements_stream(ctx);
 
@@ -734,7 +748,6 @@ pub fn run(ctx: &mut Ctx) {
             }
         }
     }
-    recursive_input_probe(ctx);
     // operations against fixed schemas
     let n_ops = if ctx.thorough { 30_000 } else { 3_000 };
     for i in 0..n_ops {
@@ -757,6 +770,8 @@ const REGRESSIONS: &[&[u8]] = &[
     &[4,2,0,3,2,4,3,4,0,4,0,4,3,2,0,3,2,4,1,0,1,4,1,3,3,3,1,3,4,4,1,0,1,3,4,0,0,3,0,0,4,1,1,4,2,0,2,4,4,4,0,1,4,0,0,3,2,4,0,3,0,4,2,3,4,0,3,1,2,4,3,1,3,3,1,2,1,3,2,4,4,0,1,1,2,4,4,4,0,4,3,2,2,0,4,0,4,2,3,3,2,0,2,4,2,4,1,3,4,3,1,4,0,2,1,4,4,4,1,1,2,2,3,1,2,0,4,3,2,2,3,2,4,3,1,3,3,4,2,1,0,1,3,1,0,1,2,0,2,1,2,2,2,2,2,4,3,4,2,1,2,2,2,2,4,3,3,4,0,3,0,2,1,1,3,3,2,2,3,4,1,3,1,0,1,0,1,0,2,0,4,4,0,0,3,3,1,2,3,0,0,1,0,4,4,4,0,0,3,0,3,3,2,4,2,3,4,0,3,1,2,2,4,0,4,4,4,2,2,4,1,4,4,1,2,1,0,2,1,4,4,2,0,4,0,1,3,2,2,3,0,1,3,1,2,2,1,0,4,2,1,3,2,4,2,0,3,2,4,3,0,1,0,0,1,4,2,1,2,4,2,2,0,0,1,0,4,3,3,1,3,2,1,0,2,1,2,1,3,1,0,1,0,4,1,4,0,4,3,3,1,0,1,3,3,4,0,0,4,0,2,2,4,2,1,0,0,0,3,0,3,3,3,4,4,4,3,3,4,4,3,0,3,1,0,0,1,1,0,2,4,0,0,2,1,1,3,4,0,4,3,3,2,4,3,3,4,2,4,0,4,3,2,2,2,2,2,4,2,3,1,0,3,1,4,0,0,2,3,2,3,1,4,2,4,2,2,1,4,3,4,1,0,0,3,0,0,0,4,3,3,1,3,3,2,4,3,2,3,2,4,4,3,1,2,2,1,4,1,0,3,0,3,0,4,0,1,1,4,4,4,3,0,1,2,2,0,0,2,4,3,1,2,2,4,1,0,4,3,1,1,3,1,3,1,3,2,3,0,4,3,0,0,2,1,4,1,4,4,0,0,2,0,1,0,2,2,3,3,3,1,4,2,2,4,4,0,2,1,2,1,1,4,3,0,3,1,1,1,4,0,4,0,1,2,3,4,0,2,0,1,4,2,1,4,3,1,0,3,3,3,4,0,4,1,0,1,3,0,2,2,1,2,0,4,1,0,2,2,4,1,0,0,2,0,0,3],
     // smith-invalid:object-type-_-implements-interface-_-more-than-once
     &[3,0,2,1,3,0,0,0,0,3,2,0,3,2,1,0,1,2,2,3,3,2,0,0,1,1,1,0,1,1,0,2,1,3,0,2,1,3,2,3,3,3,1,1,2,2,0,3,2,1,0,3,3,2,1,1,3,1,1,1,2,2,0,0,1,3,1,1,3,3,1,2,1,0,2,0,1,2,3,1,3,1,1,0,2,3,1,1,3,3,1,0,0,2,0,1,2,2,2,2,2,2,3,2,0,3,1,2,1,1,1,1,0,0,2,0,1,2,3,1,0,3,3,2,1,0,0,0,1,3,0,0,1,2,2,1,2,3,0,3,2,1,2,2,0,2,3,0,3,2,0,1,3,3,3,0,3,2,3,2,1,0,1,1,1,1,1,2,2,2,0,0,1,3,3,2,3,3,1,3,3,2,0,0,1,3,0,2,1,3,3,2,1,3,2,0,2,2,1,0,2,2,1,3,0,0,0,3,2,1,2,1,1,3,1,3,3,3,2,3,3,1,0,2,3,2,1,0,1,1,3,2,2,2,0,3,0,3,1,3,2,3,1,0,2,1,0,0,2,1,2,1,1,2,3,2,2,0,3,2,3,2,3,1,2,2,0,3,3,2,0,0,0,2,3,0,2,2,1,1,1,2,1,2,2,2,1,1,3,3,2,3,2,1,2,1,3,2,3,2,2,3,2,2,1,1,3,0,0,1,2,0,0,3,0,3,2,3,0,0,1,2,3,1,2,3,0,3,2,0,3,3,3,1,1,0,1,3,2,2,0,3,3,3,0,3,3,2,3,2,0,0,3,1,0,3,1,0,3,0,2,2,0,3,2,1,3,3,0,3,0,3,3,3,0,0,1,2,3,3,1,0,3,1,1,1,1,1,1,3,1,3,1,2,3,3,3,0,0,1,1,0,3,2,3,3,2,2,1,3,2,2,2,0,2,2,2,3,1,0,2,3,2,0,3,3,0,2,2,0,0,3,2,2,0,0,3,1,2,1,2,2,3,3,1,3,0,2,1,1,2,2,1,1,0,2,1,3,2,1,1,3,3,0,1,1,0,3,2,2,2,2,3,1,1,0,0,3,3,1,3,0,2,3,0,1,3,1,3,3,3,1,3,2,0,0,3,2,0,0,1,0,0,0,1,0,1,2,0,3,3,1,1,1,1,1,0,3,3,0,2,1,3,3,1,0,3,0,2,1,2,0,3,3,0,0,0,1,3,2,1,2,3,1,3,0,3,3,3,1,0,0,1,3,0,1,3,3,0,1,0,3,1,2,3,3,0,3,3,3,1,2,2,1,2,3,0,3,3,3,1,2,0,1,3,1,3,2,3,2,1,3,1,2,0,2,0,3,2,1,0,0,1,0,1,0,1,1,0,2,3,2,0,3,0,3,1,2,2,2,0,0,3,0,3,2,0,2,0,1,0,0,2,0,0,3,3,0,0,2,2,1,2,1,2,1,3,2,2,2,1,0,0,2,0,0,3,2,0,0,3,2,2,1,3,3,3,0,0,3,0,3,3,0,0,3,2,0,0,1,1,3,2,1,0,0,0,1,3,2,3,3,2,2,0,0,2,1,1,0,0,0,0,2,0,0,0,2,2,1,0,0,2,0,0,1,2,3,1,1,1,1,1,0,0,2,1,3,0,0,3,2,3,3,1,0,3,1,1,2,0,1,3,1,2,1,1,0,1,3,0,0,0,3,1,3,2,1,1,3,3,2,2,0,3,0,0,3,3,3,3,1,1,1,0,0,1,0,0,3,2,0,0,2,0,0,1,1,1,2,1,1,0,3,3,3,3,0,1,2,1,3,3,1,1,0,1,0,2,0,0,3,3,0,2,3,1,3,2,1,0,0,2,0,2,0,1,2,3,0,0,2,3,1,0,0,0,0,3,3,3],
+    // smith-invalid:_-input-object-cannot-reference-itself (a cycle of required fields closed by extensions; repaired)
+    &[1,152,0,121,1,2,214,0,1,2,2,0,1,2,1,13,1,1,210,123,1,131,0,1,242,0,0,1,1,82,28,0,158,0,2,0,76,2,1,2,0,1,174,0,1,0,2,0,1,2,1,107,0,1,128,1,0,2,1,97,0,0,1,0,2,1,0,195,0,0,58,0,2,2,2,1,192,2,2,0,0,0,33,0,0,2,0,68,0,1,0,1,1,0,2,227,91,0,1,2,225,0,2,2,0,2,1,0,2,74,1,2,2,1,1,244,1,0,11,184,248,150,2,2,0,2,242,2,249,31,2,2,1,123,102,115,2,0,2,2,2,51,1,0,0,0,2,18,145,1,2,1,1,1,1,0,0,197,1,2,2,0,1,0,42,0,0,131,1,0,147,2,2,1,2,2,0,230,234,2,0,1,2,0,0,232,2,1,2,2,134,1,2,0,1,0,1,0,1,1,2,0,28,2,0,210,113,1,2,170,0,0,0,2,0,0,0,1,1,2,0,2,126,136,0,2,0,2,132,2,1,1,0,0,2,0,0,0,0,0,2,1,0,1,2,0,1,2,0,67,0,175,1,65,1,19,0,2,48,0,50,1,0,2,2,0,2,2,0,0,0,54,2,1,2,0,1,0,0,1,2,0,1,1,70,2,230,0,2,2,2,0,0,2,0,180,0,0,0,0,0,0,2,2,2,201,2,0,154,0,0,0,2,0,1,2,47,2,1,94,53,2,1,0,2,0,1,2,2,1,1,2,0,0,1,0,25,236,0,0,2,0,1,1,0,41,1,0,2,0,1,33,2,2,0,2,2,0,9,3,2,0,184,2,2,2,1,2,195,2,0,0,1,2,0,2,0,191,1,1,0,1,2,0,0,0,2,0,2,2,0,0,1,2,1,0,1,0,2,215,0,2,0,0,2,2,90,1,60,1,2,0,2,0,1,136,72,206,0,0,203,0,2,0,0,148,110,1,0,145,91,71,241,2,2,0,0,1,1,23,1,2,217,136,1,0,108,200,146,1,1,194,0,1,0,2,159,0,1,1,0,0,2,226,2,2,0,2,0,0,0,2,210,12,208,2,2,2,1,2,0,0,183,0,240,0,2,1,99,0,0,174,51,0,1,2,1,1,2,0,0,2,0,185,2,0,1,2,224,0,1,2,0,0,2,0,2,2,2,1,20,1,0,158,0,67,1,240,0,2,0,202,111,1,2,154,0,1,0,2,2,1,2,0,1,1,0,1,38,124,0,2,242,212,0,2,195,1,0,18,95,248,221,2,2,2,0,73,0,0,2,122,1,2,2,71,0,158,2,69,1,101,109,1,17,2,2,1,1,2,2,87,1,2,168,0,1,2,0,0,0,14,1,0,233,1,0,2,0,0,1,1,0,0,246,1,157,32,2,151,1,126,0,98,0,1,0,0,1,2,1,0,0,1,185,2,0,189,224,0,0,0,0,1,201,2,2,2,1,0,1,0,2,2,1,2,2,2,2,2,0,2,0,1,0,23,0,2,1,1,95,225,16,2,2,1,1,1,2,41,146,2,16,0,1,0,0,2,1,214,146,114,101,2,120,0,1,1,2,0,2,1,2,182,2,2,0,0,1,215,2,0,0,2,0,0,60,2,2,115,1,0,0,0,0,73,0,2,2,0,0,2,0,0,1,1,184,2,1,121,0,1,1,2,2,32,1,1,1,162,1,2,1,2,0,1,42,200,2,1,0,0,1,2,130,0,0,1,0,0,2,0,250],
     // smith-invalid:the-required-field-_-is-not-provided
     &[0,1,0,0,1,1,1,0,0,1,1,2,0,2,1,1,2,1,0,0,0,1,0,0,1,2,1,1,2,0,0,1,1,1,2,1,1,0,1,2,1,2,2,2,2,2,2,1,2,0,0,2,2,1,0,1,1,2,0,2,2,0,0,1,1,0,0,2,1,2,0,2,0,0,2,2,0,2,1,0,0,1,0,1,2,0,1,2,2,2,1,1,1,0,1,2,0,1,2,1,2,2,2,1,1,0,0,1,2,1,1,2,0,2,0,0,1,2,2,2,2,2,0,1,2,2,2,1,2,2,2,0,2,1,2,1,0,0,1,1,0,2,1,0,0,0,2,0,0,0,1,1,1,0,2,1,1,1,1,1,2,2,0,0,2,2,2,1,2,1,2,0,0,0,1,0,2,0,2,0,2,2,2,1,2,1,1,0,1,2,1,1,1,0,0,0,1,2,1,2,1,1,0,2,1,2,0,0,2,1,2,0,1,2,2,2,0,1,1,1,1,0,2,1,1,1,1,0,1,0,1,2,0,1,2,1,1,2,2,0,1,0,0,1,2,1,0,0,1,1,0,1,2,1,0,1,1,0,2,0,2,0,2,2,0,0,1,1,2,0,2,0,1,1,1,2,1,2,1,0,2,0,0,2,1,1,0,1,2,1,1,0,2,0,2,0,1,2,2,0,2,1,2,0,2,0,2,2,0,0,1,0,2,0,1,0,0,2,2,0,0,2,1,0,1,2,1,2,1,1,1,1,2,1,0,1,2,1,0,1,0,1,1,0,0,1,2,0,2,1,0,2,0,0,1,1,2,0,1,1,2,1,1,0,2,0,0,0,0,2,0,2,2,1,0,0,2,2,1,1,1,2,0,1,2,1,2,2,0,1,0,0,0,1,2,0,2,1,1,1,2,2,2,2,0,0,1,0,2,0,2,2,2,0,0,0,2,1,2,1,1,2,0,2,2,0,0,0,1,1,0,0,2,1,0,2,1,1,1,2,1,1,1,1,0,0,2,0,0,1,1,1,0,1,0,1,0,0,1,0,2,0,0,1,2,2,1,1,2,0,2,1,0,1,1,2,2,0,0,2,0,0,2,2,1,2,0,0,0,1,0,0,1,1,0,1,0,2,1,2,1,2,2,2,0,0,0,0,0,2,2,2,1,2,2,1,0,1,2,1,2,0,0,2,2,1,1,1,2,1,0,2,1,2,1,1,2,1,0,1,0,0,1,1,0,1,2,1,1,0,2,1,0,2,1,1,1,0,2,2,0,2,2,0,2,1,2,0,1,1,1,2,1,2,2,2,0,2,0,2,2,0,0,2,2,1,2,2,2,1,2,2,2,2,2,1,0,2,1,0,2,2,0,0,2,0,1,0,1,1,0,1,1,0,0,1,0,0,1,2,2,1,2,0,0,0,1,2,1,2,2,0,0,1,1,2,2,2,2,0,0,0,2,2,0,2,2,1,2,0,1,0,2,2,0,0,1,1,2,2,1,1,0,1,2,1,2,0,1,1,0,2,0,1,0,0,2,0,1,2,1,0,0,0,2,2,2,0,2,1,2,0,1,1,0,1,0,2,0,1,1,1,0,1,1,0,1,2,0,1,0,1,1,1,2,1,1,1,1,0,1,1,2,0,1,0,1,2,0,0,1,1,1,1,1,2,0,1,0,1,2,1,2,1,2,2,1,0,2,1,0,2,0,0,1,0,0,2,2,2,2,0,1,1,0,0,0,0,0,1,0,1,2,2,1,1,2,1,1,1,2,0,1,2,0,0,2,2,1,1,2,1,1,2,2,0,0,2,0,1,2,1,1,0,2,1,0,0,1,2,2,1,1,1,0,0,2,0,2,1,0,2,2,0,0,0,1,2,2,0,2,1,1,1,0,0,0,1,0,1,2,1,1,1,0,0,0,2,0,1,2,0,1,2,2,0,1,0,1,1,0,0,0,0,2,1,1,0,1,0,2,2,0,2,1,0,2,1,2,0,1,0],
     // smith-syntax:parser-recursion-limit-reached
